@@ -4,9 +4,12 @@ package trzsz
 // (file named by $VERIF_REPLAY); assertions report on stdout. Used through `go test -c -overlay`; never part of /repo.
 
 import (
+	"encoding/hex"
 	"encoding/json"
 	"fmt"
 	"os"
+	"path/filepath"
+	"strings"
 	"sync"
 	"sync/atomic"
 	"time"
@@ -38,6 +41,7 @@ func verifReplayMain(entries map[string]func()) {
 		Entry  string           `json:"entry"`
 		Bounds map[string]int64 `json:"bounds"`
 		Inputs []verifInput     `json:"inputs"`
+		FSPre  []verifFSPreEnt  `json:"fs_pre"`
 	}
 	b, err := os.ReadFile(os.Getenv("VERIF_REPLAY"))
 	if err != nil {
@@ -51,6 +55,7 @@ func verifReplayMain(entries map[string]func()) {
 		verifExit("VERIF-ERROR: no entry "+rf.Entry, 3)
 	}
 	verifState.inputs, verifState.bounds = rf.Inputs, rf.Bounds
+	verifFS.pre = rf.FSPre
 	f()
 	if atomic.LoadInt32(&verifState.blk) == 2 {
 		verifExit("VERIF-VIOLATION: noblock", 1)
@@ -137,15 +142,173 @@ func verifBlockForever()                   { select {} }
 func verifQuiesce()                        { time.Sleep(300 * time.Millisecond) }
 func verifLiveThreads() int                { verifNotNative("verifLiveThreads"); return 0 }
 func verifAdvanceTime()                    { time.Sleep(50 * time.Millisecond) }
-func verifFSAddFile(string, []byte)        { verifNotNative("verifFS") }
-func verifFSAddDir(string)                 { verifNotNative("verifFS") }
-func verifFSSymbolicExists()               { verifNotNative("verifFS") }
-func verifFSEvents() int                   { verifNotNative("verifFS"); return 0 }
-func verifFSEventPath(int) string          { verifNotNative("verifFS"); return "" }
-func verifFSEventPre(int) bool             { verifNotNative("verifFS"); return false }
-func verifFSKind(string) int               { verifNotNative("verifFS"); return 0 }
-func verifFSContent(string) []byte         { verifNotNative("verifFS"); return nil }
-func verifFSOpenHandles() int              { verifNotNative("verifFS"); return 0 }
 func verifAbstractName(int) string         { verifNotNative("verifAbstractName"); return "" }
 func verifOpaqueASCII(int, int) string     { verifNotNative("verifOpaqueASCII"); return "" }
 func verifDisplayWidth(string) int         { verifNotNative("verifDisplayWidth"); return 0 }
+
+// ---- sandbox file system
+
+type verifFSPreEnt struct {
+	Path string `json:"path"`
+	Dir  bool   `json:"dir"`
+}
+
+type verifFSEnt struct {
+	dir     bool
+	content string
+}
+
+var verifFS struct {
+	work, root string
+	pre        []verifFSPreEnt
+	snap       map[string]verifFSEnt
+}
+
+func verifFSRoot() string {
+	if verifFS.root == "" {
+		verifFS.work = os.Getenv("VERIF_WORK")
+		if verifFS.work == "" {
+			verifExit("VERIF-ERROR: no VERIF_WORK", 3)
+		}
+		verifFS.root = verifFS.work + "/a/b/c/dest"
+		if err := os.MkdirAll(verifFS.root, 0o755); err != nil {
+			verifExit("VERIF-ERROR: "+err.Error(), 3)
+		}
+	}
+	return verifFS.root
+}
+
+// verifFSMap maps a path of the symbolic world (/w/...) into the sandbox.
+func verifFSMap(sym string) string {
+	verifFSRoot()
+	if sym == "/w" {
+		return verifFS.work
+	}
+	if strings.HasPrefix(sym, "/w/") {
+		return verifFS.work + sym[2:]
+	}
+	verifExit("VERIF-ERROR: path outside the sandbox: "+sym, 3)
+	return ""
+}
+
+func verifFSAddFile(path string, content []byte) {
+	if err := os.WriteFile(path, content, 0o644); err != nil {
+		verifExit("VERIF-ERROR: "+err.Error(), 3)
+	}
+}
+
+func verifFSAddDir(path string) {
+	if err := os.MkdirAll(path, 0o755); err != nil {
+		verifExit("VERIF-ERROR: "+err.Error(), 3)
+	}
+}
+
+func verifFSTakeAllNames(dir, name string) {
+	verifFSAddFile(filepath.Join(dir, name), nil)
+	for i := 0; i < 1000; i++ {
+		verifFSAddFile(filepath.Join(dir, fmt.Sprintf("%s.%d", name, i)), nil)
+	}
+}
+
+func verifFSSymbolicExists() {
+	for _, e := range verifFS.pre {
+		b, err := hex.DecodeString(e.Path)
+		if err != nil {
+			verifExit("VERIF-ERROR: "+err.Error(), 3)
+		}
+		p := verifFSMap(string(b))
+		if e.Dir {
+			err = os.MkdirAll(p, 0o755)
+		} else {
+			err = os.WriteFile(p, nil, 0o644)
+		}
+		if err != nil {
+			verifExit("VERIF-ASSUME-FAILED", 3) // the solver's pre-state is not realisable on a real file system
+		}
+	}
+}
+
+func verifFSWalk() map[string]verifFSEnt {
+	m := map[string]verifFSEnt{}
+	filepath.Walk(verifFS.work, func(p string, info os.FileInfo, err error) error {
+		if err != nil {
+			return nil
+		}
+		e := verifFSEnt{dir: info.IsDir()}
+		if !e.dir {
+			b, _ := os.ReadFile(p)
+			e.content = string(b)
+		}
+		m[p] = e
+		return nil
+	})
+	return m
+}
+
+func verifFSBegin() {
+	verifFSRoot()
+	verifFS.snap = verifFSWalk()
+}
+
+func verifFSInside(p string) bool {
+	return p == verifFS.root || strings.HasPrefix(p, verifFS.root+"/")
+}
+
+func verifFSDiff(filter func(p string, old, isNew bool) bool) int {
+	if verifFS.snap == nil {
+		verifExit("VERIF-ERROR: verifFSBegin not called", 3)
+	}
+	now := verifFSWalk()
+	n := 0
+	for p, e := range now {
+		o, ok := verifFS.snap[p]
+		if (!ok || o != e) && filter(p, ok, !ok) {
+			n++
+		}
+	}
+	for p := range verifFS.snap {
+		if _, ok := now[p]; !ok && filter(p, true, false) {
+			n++
+		}
+	}
+	return n
+}
+
+func verifFSEscaped() bool {
+	return verifFSDiff(func(p string, old, isNew bool) bool { return !verifFSInside(p) }) > 0
+}
+
+func verifFSPreTouched() bool {
+	return verifFSDiff(func(p string, old, isNew bool) bool { return old }) > 0
+}
+
+func verifFSMutations() int {
+	return verifFSDiff(func(p string, old, isNew bool) bool { return true })
+}
+
+func verifFSKind(path string) int {
+	st, err := os.Lstat(path)
+	if err != nil {
+		return 0
+	}
+	if st.IsDir() {
+		return 2
+	}
+	return 1
+}
+
+func verifFSContent(path string) []byte {
+	b, _ := os.ReadFile(path)
+	return b
+}
+
+func verifFSOpenHandles() int {
+	ents, _ := os.ReadDir("/proc/self/fd")
+	n := 0
+	for _, e := range ents {
+		if t, err := os.Readlink("/proc/self/fd/" + e.Name()); err == nil && strings.HasPrefix(t, verifFS.work+"/") {
+			n++
+		}
+	}
+	return n
+}
